@@ -6,15 +6,18 @@ import (
 )
 
 func (p *Pool) Run(ctx context.Context) {
-	if !p.runM.TryLock() {
+	p.lifeM.Lock()
+	defer p.lifeM.Unlock()
+
+	if p.running {
 		slog.Warn("worker pool already running")
 		return
 	}
-
-	p.ctx, p.cancel = context.WithCancel(ctx)
-	p.ch = make(chan Event, p.opts.NumWorkers*2) //nolint:mnd
+	p.running = true
 
 	p.stopM.Lock()
+	p.ctx, p.cancel = context.WithCancel(ctx)
+	p.ch = make(chan Event, p.opts.NumWorkers*2) //nolint:mnd
 	p.stopped = false
 	p.stopM.Unlock()
 
